@@ -49,11 +49,21 @@ def shards(tier: str) -> int:
     return 16
 
 
+def type_of(text: str) -> str:
+    """Message type of a message text ('m2:5;7.' is the long form m2l of 'm2:5;')."""
+    t = text.split(":")[0]
+    return t + "l" if text.endswith(".") else t
+
+
 def spec_text(proto: dict[str, Any]) -> str:
     base = c19.render(proto).split("\n\n")[0]
     lines = [ln for ln in base.split("\n") if not any(ln.startswith(f"<{t}> ::=") for t in proto["types"])]
     for t in proto["types"]:
-        lines.append(f"<{t}> ::= '{t}:' <v> ';'")
+        if t.endswith("l"):
+            # a message type whose shorter sibling is a prefix of it
+            lines.append(f"<{t}> ::= '{t[:-1]}:' <v> ';' <v> '.'")
+        else:
+            lines.append(f"<{t}> ::= '{t}:' <v> ';'")
     lines.append("<v> ::= <digit>{1,2}")
     lines.append("<digit> ::= '0' | '1' | '2' | '3' | '4' | '5' | '6' | '7' | '8' | '9'")
     for t in proto["types"]:
@@ -78,6 +88,8 @@ def make_text(proto: dict[str, Any]) -> Any:
         ok = CONSTRAINTS.get(t, (None, lambda x: True))[1]
         if kind == "wrong_type":
             return f"zz:{v};"
+        if t.endswith("l"):
+            return f"{t[:-1]}:{v};{(v * 7) % 100}."
         if kind == "violating" and t in CONSTRAINTS:
             while ok(v):
                 v = (v + 1) % 100
@@ -89,9 +101,38 @@ def make_text(proto: dict[str, Any]) -> Any:
     return make
 
 
+def _m(t: str, s: str, r: str) -> list[Any]:
+    return ["nt", t, s, r]
+
+
+@st.composite
+def directed_protocols(draw: Any) -> dict[str, Any]:
+    """Shapes the general generator rarely produces: the same message type from two different external parties at
+    alternative positions; several external messages in a row (same or different senders: pipelining, interleaved
+    fragments); two message types of one sender of which one is a prefix of the other."""
+    shape = draw(st.sampled_from(["two_senders", "ext_sequence_mixed", "ext_sequence_same", "prefix_types"]))
+    head = draw(st.sampled_from([[], [_m("m4", "A", "B")]]))
+    if shape == "two_senders":
+        body: Any = ["alt", [["seq", [_m("m1", "B", "A"), _m("m2", "A", "B")]], ["seq", [_m("m1", "C", "A"), _m("m3", "A", "C")]]]]
+        rules = [["start", ["seq", head + [body] + draw(st.sampled_from([[], [_m("m3", "A", "C")], [["opt", body]]]))]]]
+        return {"rules": rules, "parties": ["A", "B", "C"], "types": ["m1", "m2", "m3", "m4"], "shape": shape}
+    if shape == "ext_sequence_mixed":
+        seq_ = [_m("m2", "B", "A"), _m("m3", "C", "A")]
+        if draw(st.booleans()):
+            seq_.append(_m("m1", "B", "A"))
+        rules = [["start", ["seq", [_m("m4", "A", "B")] + seq_ + [_m("m4", "A", "C")]]]]
+        return {"rules": rules, "parties": ["A", "B", "C"], "types": ["m1", "m2", "m3", "m4"], "shape": shape}
+    if shape == "ext_sequence_same":
+        seq_ = [_m("m2", "B", "A"), _m("m3", "B", "A")] + draw(st.sampled_from([[], [_m("m1", "B", "A")]]))
+        rules = [["start", ["seq", head + seq_ + [_m("m4", "A", "B")]]]]
+        return {"rules": rules, "parties": ["A", "B"], "types": ["m1", "m2", "m3", "m4"], "shape": shape}
+    rules = [["start", ["seq", [_m("m4", "A", "B"), ["alt", [_m("m3", "B", "A"), _m("m3l", "B", "A")]], _m("m1", "B", "A"), _m("m4", "A", "B")]]]]
+    return {"rules": rules, "parties": ["A", "B"], "types": ["m1", "m3", "m3l", "m4"], "shape": shape}
+
+
 @st.composite
 def cases(draw: Any) -> dict[str, Any]:
-    proto = draw(c19.protocols())
+    proto = draw(directed_protocols()) if draw(st.integers(0, 2)) == 0 else draw(c19.protocols())
     # keep interactions short: whole runs re-forecast after every message and the cost of that grows quickly
     # with the history (unbounded loops are C19's business)
     for rule in proto["rules"]:
@@ -99,7 +140,7 @@ def cases(draw: Any) -> dict[str, Any]:
     script = []
     for i in range(draw(st.integers(0, 6))):
         kind = draw(st.sampled_from(["valid"] * 6 + ["wrong_type", "violating", "truncated"]))
-        script.append({"kind": kind, "pick": draw(st.integers(0, 3)), "value": draw(st.integers(0, 99)),
+        script.append({"kind": kind, "pick": draw(st.integers(0, 3)), "value": draw(st.integers(0, 99)), "pipeline": draw(st.booleans()),
                        "chunks": draw(st.lists(st.integers(1, 4), min_size=1, max_size=3)),
                        "gaps": draw(st.lists(st.sampled_from([0.0, 0.01, 0.03, 0.2, 0.6]), min_size=1, max_size=3))})
     return {"proto": proto, "script": script, "seed": draw(st.integers(0, 10**6)), "gens": draw(st.sampled_from([9, 30]))}
@@ -167,7 +208,7 @@ def check_case(case: dict[str, Any], ctx: Any = None) -> list[str]:
     # (1) prefix of the protocol language
     state = regex0
     for s, r, t in history:
-        sym = (s, r, t.split(":")[0])
+        sym = (s, r, type_of(t))
         state = c19.deriv(state, sym)
         if state == c19.EMPTY:
             msgs.append(f"the interaction tree holds {history}, which is not a prefix of any interaction of the spec (at {sym})")
@@ -178,6 +219,18 @@ def check_case(case: dict[str, Any], ctx: Any = None) -> list[str]:
             nxt = c19.first(state)
             if not any(s_[0] in plan["external"] for s_ in nxt) or True:
                 msgs.append(f"fault-free run ended normally with the incomplete interaction {history}; next allowed {sorted(nxt)}")
+    # (5) valid remote data reaches the fuzzer: in a run in which every peer behaved validly (the harness owns the
+    #     clock and the peers answer whenever it is their turn) Fandango must not blame the remote side - a time-out
+    #     waiting for a party, an "unexpected party", fragments that "could not be parsed" or a response that "does
+    #     not match" mean that delivered data was lost or misread.  Other failures of the run (search budget used up,
+    #     internal errors before any remote data is involved) are counted, not judged under this property.
+    BLAME = ("Timed out while waiting", "Timeout while waiting", "Unexpected party", "Could not parse received", "does not match constraints",
+             "Couldn't derive parameters")
+    if fault_free and error is not None and not D.silent:
+        if any(b in error for b in BLAME):
+            msgs.append(f"fault-free run: Fandango rejects valid remote data: {error}; interaction so far {history}; events: {D.events[-6:]}")
+        elif ctx is not None:
+            ctx.count("fault_free_run_failed_otherwise:" + error.split(":")[0].replace("reported", "").strip()[:40])
     # (2) attribution
     fuzzer = proto["parties"][0]
     mine = [(s, r, t) for s, r, t in history if s == fuzzer]
@@ -208,6 +261,9 @@ def check_case(case: dict[str, Any], ctx: Any = None) -> list[str]:
                  sample={"spec": text.split("\n\n")[0], "script": [s_["kind"] for s_ in case["script"]], "history": history,
                          "error": error, "events": D.events[:12]})
         ctx.count("virtual_seconds", int(D.now))
+        ctx.count("pipelined_messages", D.pipelined)
+        if proto.get("shape"):
+            ctx.count("shape=" + proto["shape"])
     return msgs[:4]
 
 
